@@ -372,19 +372,33 @@ impl<'r> G<'r> {
     }
 }
 
-const INT_LATTICE: [u64; 12] = [
+const INT_LATTICE: [u64; 26] = [
     0,
     1,
+    2,
+    3,
     23,
     24,
+    25,
+    127,
+    128,
     255,
     256,
+    257,
+    512,
+    0x7fff,
+    0x8000,
     65535,
     65536,
+    0x0100_0000,
+    0x00ff_ff00,
     0x7fff_ffff,
     0x8000_0000,
     0xffff_fffe,
     0xffff_ffff,
+    0x1_0000_0000,
+    0x7fff_ffff_ffff_ffff,
+    0xffff_ffff_ffff_ffff,
 ];
 
 pub fn gen_uint(rng: &mut Rng, max: u64) -> u64 {
@@ -411,8 +425,8 @@ pub fn gen_len(rng: &mut Rng, min: usize, max: usize, small: bool) -> usize {
         return match rng.below(8) {
             0 => min,
             1 => min.max(1),
-            2 => *rng.pick(&[23usize, 24, 32, 64, 65]),
-            3 if !small => *rng.pick(&[255usize, 256, 257]),
+            2 => *rng.pick(&[16usize, 23, 24, 32, 48, 64, 65]),
+            3 if !small => *rng.pick(&[128usize, 192, 255, 256, 257, 320]),
             _ => min + rng.usize(soft),
         }
         .max(min);
@@ -420,20 +434,71 @@ pub fn gen_len(rng: &mut Rng, min: usize, max: usize, small: bool) -> usize {
     if min >= max {
         return max;
     }
-    match rng.below(8) {
+    match rng.below(9) {
         0 => min,
         1 => (min + 1).min(max),
         2 => max - 1,
         3 | 4 => max,
+        5 => {
+            // multiples of 16 / 32 / 64 inside the range
+            let step = *rng.pick(&[16usize, 32, 64]);
+            let k = (max / step).max(1);
+            (step * (1 + rng.usize(k))).clamp(min, max)
+        }
         _ => min + rng.usize(max - min + 1),
     }
 }
 
+/// Byte content of length n: mostly random, sometimes one of the special shapes that code tends to
+/// treat specially (all zero, all 0xFF, leading 0x00 / 0xFF / 0x80, ASCII of a member name,
+/// ascending bytes, the CBOR break / map bytes).
+pub fn gen_bytes_content(rng: &mut Rng, n: usize) -> Vec<u8> {
+    let mut b = match rng.below(16) {
+        0 => vec![0x00; n],
+        1 => vec![0xff; n],
+        2 => (0..n).map(|i| i as u8).collect(),
+        3 => {
+            let w = *rng.pick(&["id", "name", "type", "public-key", "icon", "rk", "up", "uv", "alg", "hmac-secret"]);
+            w.as_bytes().iter().cycle().take(n).cloned().collect()
+        }
+        4 => vec![*rng.pick(&[0xa0u8, 0xf6, 0x7f, 0x80, 0x01, 0x40, 0x60, 0x9f, 0xbf]); n],
+        _ => rng.bytes(n),
+    };
+    if n > 0 {
+        match rng.below(12) {
+            0 => b[0] = 0x00,
+            1 => b[0] = 0xff,
+            2 => b[0] = 0x80,
+            3 => b[n - 1] = 0x00,
+            4 => b[n - 1] = 0xff,
+            _ => {}
+        }
+    }
+    b
+}
+
+const SPECIAL_TEXTS: [&str; 28] = [
+    "id", "name", "type", "icon", "url", "displayName", "public-key", "rk", "up", "uv", "alg", "hmac-secret", "credProtect",
+    "largeBlobKey", "thirdPartyPayment", "packed", "none", "example.com", "localhost", "https://example.com/a?b=c#d",
+    "a b", "a\u{0}b", "\"quoted\"", "a/b:c.d@e", "\u{feff}bom", "xn--caf-dma.example", "*.example.com", ".",
+];
+
 pub fn gen_text(rng: &mut Rng, n: usize) -> V {
-    if rng.bool() {
-        V::text(&rng.ascii(n))
-    } else {
-        V::text(&rng.text_bytes(n))
+    match rng.below(12) {
+        0 => {
+            // a text that equals (or is built from) a member name / well-known identifier
+            let w = *rng.pick(&SPECIAL_TEXTS);
+            let mut t = String::new();
+            while t.len() + w.len() <= n {
+                t.push_str(w);
+            }
+            while t.len() < n {
+                t.push('.');
+            }
+            V::text(&t)
+        }
+        1..=5 => V::text(&rng.ascii(n)),
+        _ => V::text(&rng.text_bytes(n)),
     }
 }
 
@@ -493,7 +558,7 @@ pub fn gen(s: &S, g: &mut G) -> V {
         S::Bool => V::Bool(g.rng.bool()),
         S::Bytes { min, max } => {
             let n = gen_len(g.rng, *min, *max, g.small);
-            V::B(g.rng.bytes(n))
+            V::B(gen_bytes_content(g.rng, n))
         }
         S::Text { max } => {
             let n = gen_len(g.rng, 0, *max, g.small);
@@ -629,6 +694,9 @@ pub fn gen_message(s: &S, g: &mut G) -> V {
             g.small = true;
         }
         let mut v = gen(s, g);
+        if g.rng.chance(1, 6) {
+            equalize(s, &mut v, g.rng);
+        }
         canonicalize(&mut v);
         if crate::cbor::encode(&v).len() + 1 <= MAX_MSG {
             return v;
@@ -953,4 +1021,47 @@ pub fn within_limit(s: &S, v: &V) -> Option<bool> {
         (S::Array { max, .. }, V::A(a)) => a.len() <= *max,
         _ => return None,
     })
+}
+
+/// Make two same-typed leaf members carry the SAME value (value relations such as
+/// name == displayName, pinUvAuthParam == clientDataHash), respecting the receiving member's limit.
+pub fn equalize(s: &S, v: &mut V, rng: &mut Rng) {
+    let ns = nodes(s, v);
+    let leaves: Vec<(Path, bool, usize)> = ns
+        .iter()
+        .filter_map(|n| match n.s {
+            S::Bytes { max, .. } => Some((n.path.clone(), true, *max)),
+            S::Text { max } | S::TextTrunc { max } | S::TextDropIfLonger { max } => Some((n.path.clone(), false, *max)),
+            _ => None,
+        })
+        .collect();
+    if leaves.len() < 2 {
+        return;
+    }
+    let a = &leaves[rng.usize(leaves.len())];
+    let cands: Vec<&(Path, bool, usize)> = leaves.iter().filter(|l| l.1 == a.1 && l.0 != a.0).collect();
+    if cands.is_empty() {
+        return;
+    }
+    let b = cands[rng.usize(cands.len())];
+    let val = match at(v, &a.0) {
+        Some(x) => x.clone(),
+        None => return,
+    };
+    let len = match &val {
+        V::B(x) | V::T(x) => x.len(),
+        _ => return,
+    };
+    // only where the copy is within the receiving member's limit and (for exact-length members) legal
+    if let Some(S::Bytes { min, .. }) = ns.iter().find(|n| n.path == b.0).map(|n| n.s) {
+        if len < *min {
+            return;
+        }
+    }
+    if len > b.2 {
+        return;
+    }
+    if let Some(slot) = at_mut(v, &b.0) {
+        *slot = val;
+    }
 }
